@@ -352,7 +352,7 @@ def run_check(prop: str, tier: str, seed: int) -> int:
         return 1
     if inconclusive:
         for r in inconclusive[:5]:
-            print(f"INCONCLUSIVE property={prop} reason={r[:500]}")
+            print(f"INCONCLUSIVE property={prop} reason={r[:80]} ... {r[-400:]}" if len(r) > 500 else f"INCONCLUSIVE property={prop} reason={r}")
         print(f"INCONCLUSIVE {summary}")
         return 2
     print(f"HELD {summary}")
